@@ -20,6 +20,14 @@ CHECKS = {
          "Part 1 explores ALL reachable abstract builder states (len, open-label length) - a complete fixpoint, not a depth bound - executing every operation of the menu on the real NameBuilder in every state (twice, with different fill octets) against an abstract RFC-limit model and an independent wire validator. Part 2 enumerates every presentation string over 11 symbols to length 6/7, boundary-length families, every wire string from a label-length menu, raw octet strings, every index pair for slice/range/split/truncate, and chain() over a length menu, against an independent validator and text/wire round trips.",
          "Builder control flow depends only on (len, open-label length) (checked per transition); strings with unescaped space/quote/'['/non-ASCII are only required to yield valid names.",
          "seqx", "DESIGN.md §3 C03"),
+ "C08": ("model_checking", "exhaustive enumeration of all zone contents x all histories of fixed shapes x all queries on the real in-memory zone, independent RFC 1034/4592 resolver as oracle",
+         "All 2,624 zone contents over a 7-name tree (apex, a, b.a, *.a, c, d.c, *) with kinds none/A/TXT/A+TXT/CNAME/NS/NS+DS(+glue), reached through every history shape: ZoneBuilder in two insertion orders, parsed::Zonefile, ZoneUpdater full replacement from a bare and from a busy zone, write interface from a bare zone and via remove_all, and from every single-slot neighbour content a ZoneUpdater edit, a write-interface edit, and a write-interface edit after an abandoned (rolled back) attempt; every (qname,qtype) over 16 names x 6 types plus walk() is compared with a reference resolver written over plain data (exact/CNAME/NODATA incl. ENT/referral with NS, DS, glue/wildcard synthesis/NXDOMAIN, SOA in negative answers, AA).",
+         "HashMap order not owned (set comparison, no qtype ANY); CNAMEs are not chased; updater histories run over contents without NS/DS/CNAME because the updater has no cut/CNAME notion (known finding, witnessed); history-dependent mismatches are classified by structural cause and only the listed causes with their implied symptom are known findings.",
+         "seqx", "DESIGN.md §3 C08"),
+ "C09": ("model_checking", "explicit-state BFS over all operation-level interleavings of a writer and two readers on the real zone (replay), differential oracles",
+         "BFS to depth 7 (quick) / 8 (thorough) over every interleaving of writer steps (open, update x3 names, remove, remove_all, commit, drop; thorough also commit-keeping-the-node-handle and writes through it) with two readers' acquire/observe/release; each history replayed on a fresh real zone; states deduplicated on (model state, sorted Debug rendering of the zone incl. version vectors). Oracles: a held reader's observation vector (6 queries + walk) never changes; a reader acquired after commit walks exactly the last committed content and serves no data outside it; abandoned work is never visible.",
+         "Operation granularity only: real-thread schedules of the lock-level code are NOT explored (the loom engine planned in DESIGN.md was not built; see DESIGN.md). Answer-kind correctness is C08's business.",
+         "seqx", "DESIGN.md §3 C09"),
  "C13": ("exploration", "exhaustive enumeration of all zones over a small name universe x NSEC/NSEC3 configurations through the real SortedRecords + generate_nsecs/generate_nsec3s, independent chain builder and coverage predicate as oracle",
          "All zones over an 11-name universe (cuts, glue, occluded data, nested cut, shared and two-level ENTs, wildcard, case twins, multi-window bitmaps, equal-RDATA unknown types, out-of-zone records): 82,944 zones quick / 746,496 thorough, x NSEC (DNSKEY assumed on/off) and 14/30 NSEC3 configs (salt x iterations x opt-out modes). Oracle written from RFC 4034/4035/5155 in the harness: own canonical order, cut/glue/occlusion predicates, ENT derivation, iterated SHA-1 + base32hex, bitmap codec; exact owner set, order, next pointers, bitmaps; and for every absent (name,type) over a 64-name closure x 12 types a matching-without-bit or covering record (incl. wrap-around, closest-encloser/next-closer for NSEC3, opt-out flag).",
          "ring SHA-1 as primitive; TTL values and NSEC3PARAM contents are not asserted (not in the property); an ENT derived only from opted-out delegations may be present or absent (RFC 5155 7.1).",
@@ -28,10 +36,18 @@ CHECKS = {
          "(a) full product of transport x EDNS size x configured limit x response size boundaries x OPT/question/layout variants through MandatoryMiddlewareSvc<EdnsMiddlewareSvc<CookiesMiddlewareSvc<svc>>>; (b) all environment-answer/service-completion sequences with <=3 (quick) / <=4 (thorough) deviations for 3 pipelined requests incl. malformed ones on the real DgramServer and StreamServer; (c) pipeline depth 1..16/64. Oracle: independent deframer/parser: framing, ID/question echo, exactly-once, size bound, TC iff dropped, liveness of other connections, no panic in any task.",
          "tokio current-thread FIFO scheduling with biased select! in the server code; mocks replace sockets; missing responses are excused on a connection the client or environment itself broke.",
          "envx", "DESIGN.md §3 C16"),
+ "C18": ("exploration", "exhaustive enumeration of all strings over character-class alphabets through every decoder entry point and all chunkings, independent RFC 4648 codec as oracle",
+         "Per codec (base64, base32hex, base16): every string to length 8/9-11/6 (quick; 10/10-13/8 thorough) over class alphabets through decode, Decoder::push char-by-char continuing after errors + finalize, SymbolConverter with every split into <=3 tokens, and the scanner route; an alphabet sweep of 395 characters in every position of a group; all octet strings over 5 values to length 5 (7), all 1-2 (3)-octet strings and lengths 6..40 through display/encode_string/encode_display and back; bounded-buffer decoders. Oracle: table-driven RFC 4648 codec written in the harness: accept iff well-formed (as each module documents: base64 padded, base32hex unpadded), equal octets, all entry points agree, encoders equal the RFC encoding, no panic.",
+         "Non-zero trailing bits may be accepted or rejected (RFC 4648 3.5 MAY); only base32hex exists in the library.",
+         "gramx", "DESIGN.md §3 C18"),
  "C17": ("exploration", "flat exhaustive sweep of 2^32 cross-sections on the real Serial/Timestamp",
          "Every pair (base, c) for all 2^32 values c per base (2 bases quick, 14 thorough) is run through the real partial_cmp/operators/add/Timestamp and compared with RFC 1982 computed in u64; exhaustive within the cross-sections, which contain every branch pair of the implementation.",
          "Full 2^64 pair space is not swept; bases chosen at the boundaries (0, 2^31-1, 2^31, 2^32-1, ...).",
          "sweep", "DESIGN.md §3 C17"),
+ "C20": ("model_checking", "exhaustive enumeration of all cache histories of fixed shapes on the real cache::Connection over a scripted upstream under tokio's paused clock",
+         "All histories fill.probe, fill.probe.probe, fill.cross-probe (thorough: also fill.fill'.probe.probe) over 3 questions x 16 flag sets (RD,CD,AD,DO) x 22 upstream answer kinds x 29/44 clock advances x 4 configurations, each on a fresh cache and runtime (4.2 M histories quick, 58.7 M thorough). Oracle: a response not fetched in this step must equal an earlier upstream response for the same question under the documented flag lattice, TTLs decremented by the elapsed time and never larger, not served beyond min(smallest TTL, max_validity, class bound), no DNSSEC records/AD to queries that did not ask, TC only with cache_truncated.",
+         "cache.rs uses tokio::time::Instant (owned by the paused clock); moka is used without TTL/background threads; service at exactly elapsed == bound is accepted.",
+         "envx", "DESIGN.md §3 C20"),
 }
 
 def main():
